@@ -310,7 +310,8 @@ impl Part for C07 {
             }
         } else {
             // NIST: a flipped bit gives an invalid point (setup fails) - a few positions, plus -P (valid, same x)
-            for b in [8usize, 9, enc.len() * 4, enc.len() * 8 - 1] {
+            // (every bit of the leading SEC1 tag byte, and a few coordinate bits)
+            for b in [0usize, 1, 2, 3, 4, 5, 6, 7, 8, 9, enc.len() * 4, enc.len() * 8 - 1] {
                 perturb(&mut out, format!("enc bit {}", b), c.suite, &m, &k.sk_r, &flip(&enc, b), &info);
             }
         }
